@@ -12,7 +12,9 @@
      Mini/ProofsZapSem3.v   zap: design units, unit lists, libraries
      Mini/ProofsZapAgree.v  an accepted expression stays accepted under a node-id shift and a change of the
                             environment at names it cannot have used
-     Mini/ProofsZapDup.v    dup: the copy of a declaration passes the checks that precede its `declare`, then clashes
+     Mini/ProofsZapDup.v    dup: the copy of a declaration passes the checks that precede its `declare`, then clashes;
+                            the copy of a subprogram body (a second, empty body) finds the obligation of the package
+                            already completed (e_done) or clashes with the binding of the first body
 
    History: the statements zap_blame and dup_blame were false for the first version of the definitions (found while
    proving them; see the regression examples at the end): a named association whose formal was already associated
@@ -129,3 +131,17 @@ Definition dup_cex : program :=
   [Lib 8 [ DUnit [] (UPkg (Occ 1 9) [DComp (Occ 2 10) [] [IFace (Occ 3 10) MIn TMBit None]]) ]].
 Example dup_cex_no_site : check_program dup_cex = Ok tt /\ dup_sites dup_cex = [].
 Proof. vm_compute. split; reflexivity. Qed.
+(* second body of a subprogram: f is declared in package 9 and completed in its body (the copy finds the obligation
+   in e_done); g is local to the package body, q to the architecture (the copy clashes with the first body) *)
+Definition dup_body_ex : program :=
+  [Lib 8 [ DUnit [] (UPkg (Occ 1 9) [DFunDecl (Occ 2 10) [Param (Occ 3 11) KConst MIn TMInt] TMInt]);
+           DUnit [] (UBody (Occ 4 9)
+             [DFunBody (Occ 5 10) [Param (Occ 6 11) KConst MIn TMInt] TMInt [] (SCons (SRet 7 (Some (ENam (NId (Occ 8 11))))) SNil);
+              DFunBody (Occ 9 12) [Param (Occ 10 11) KConst MIn TMBit] TMBit [] (SCons (SRet 11 (Some (ENam (NId (Occ 12 11))))) SNil)]);
+           DUnit [] (UEnt (Occ 13 13) [] []);
+           DUnit [] (UArch (Occ 14 14) (Occ 15 13) [DProcBody (Occ 16 15) [] [] SNil] CNil) ]].
+Example dup_body_ex_sites :
+  check_program dup_body_ex = Ok tt /\ dup_sites dup_body_ex = [2; 5; 9; 16] /\
+  map (fun s => blame_program (dup s dup_body_ex)) [5; 9; 16] =
+    [Some (5 + 17, Duplicate); Some (9 + 17, Duplicate); Some (16 + 17, Duplicate)].
+Proof. vm_compute. repeat split; reflexivity. Qed.
